@@ -9,6 +9,10 @@ Re-extracts on every run
     a parameter of the wrapper, a literal, or a `#define`d integer macro (resolved from the C text); arguments are matched
     positionally against the callee's parameter list, with a kind check.  The emitted definition is the callee's generated
     program applied to the record built from the arguments; the callee's uninitialised locals become extra parameters.
+  * likewise `shake128/256_absorb` (25-lane allocation `PQC_SHAKECTX_BYTES`, then `keccak_absorb`) and `shake128/256_squeezeblocks`;
+  * the one-shot `shake128` / `shake256`: the statement sequence must match the template ONESHOT, whose holes are the rate macros, the
+    block count of the tail call and the copy loop (translated by sponge.py's statement translator); `shake*_ctx_release` must be
+    `free(state->ctx);`.  Emitted as `shakeN.run` in the Option monad over the generated wrapper programs.
 Anything else raises TranslateError.
 """
 import os, re, sys
